@@ -169,6 +169,17 @@ func TestSequential(t *testing.T) {
 						phase[res] = 1
 					}
 				} else {
+					if hk := rapid.IntRange(0, 5).Draw(t, "exitHandlers"); hk < 2 { // exit handlers, returning nil or an error: the exit still frees the capacity
+						var herr error
+						if hk == 1 {
+							herr = errors.New("exit handler failed")
+						}
+						e.WhenExit(func(*base.SentinelEntry, *base.EntryContext) error { return herr })
+						if rapid.Bool().Draw(t, "secondHandler") {
+							e.WhenExit(func(*base.SentinelEntry, *base.EntryContext) error { return nil })
+						}
+						c.Class("entry-with-exit-handlers")
+					}
 					lives = append(lives, lv{next, e, res})
 					next++
 					live[res]++
